@@ -13,7 +13,7 @@ from props import c01 as P1
 ID = 'C05'
 READY = True
 LEVEL_TEXT = ('Partial. Coq theorems over R: project is feasible, the nearest feasible point and idempotent for finite/one-sided/infinite/degenerate bounds; '
-              'project_onto_tr is in the box for every value brentq may return, unchanged and inside the radius when the projection already is, inside the radius when f(t)<=0; '
+              'project_onto_tr is in the box for every value brentq may return and -- since the repair of finding F15 (repo fix: the point found by the root finder is pulled back toward xk when it overshoots) -- ALSO inside the radius for EVERY value brentq may return (feasible centre, radius >= 0; no hypothesis on the root finder left), unchanged when the projection is already inside; '
               'the clip statement alpha = min(1.0, max(0.0, alpha)) if sBs > 0 else 1.0 and project (n = 1, 2, 3) are kernels REGENERATED from the source (no hand kernel clip01 any more): '
               'the generated clip equals Rmin 1 (Rmax 0 a) / 1 and is in [0,1] for every line-search value, the list model clamp/project equals the generated project kernel; '
               'C05_every_iterate_feasible: ONE theorem about the COMPLETE solver model (model/M_C05_Full.v: find_generalized_cauchy_point with its forward/back-tracking and trust-region cut-back loops, '
@@ -22,7 +22,7 @@ LEVEL_TEXT = ('Partial. Coq theorems over R: project is feasible, the nearest fe
               'C05_flag_honest_complete_model: the complete model reports success only at a final ConvergedAt event at the returned point with |P(y-g)-y|<tol (no hypotheses); '
               'outer loop for ARBITRARY value/gradient oracles and ARBITRARY step proposals (older model, kept): accepted objective values non-increasing (default mode, eta1>=0), '
               'flag=False => returned point is the current iterate; convex + exact projected-gradient stationarity => bound-constrained minimiser. '
-              'Not proved: the binary64 version of feasibility (a bound can be exceeded by an ulp through y = x + z; L2 allows 4 ulp), the trust-region half |z|<=trSize for SPG iterates, '
+              'Not proved: the binary64 version of feasibility (a bound can be exceeded by an ulp through y = x + z; L2 allows 4 ulp), the trust-region half |z|<=trSize for the SPG iterates (project_onto_tr itself is now proved inside the radius; the convex-combination step is not yet), '
               'descent / returns-last restated over the complete model (they are proved for the proposal-oracle model, of which every complete run is an instance by construction of decide, not by a Coq theorem), '
               'descent at the converged exit is FALSE (finding F1\'), success on convex problems (tested only).')
 TECHNIQUE = 'Coq proof (Reals, lra/nra, induction over the loops) on a hand model + regenerated line-search / clip / project kernels; vm_compute/PrimFloat correspondence of complete event traces with logged root-finder answers'
@@ -394,6 +394,29 @@ def compare_full(res, mev, o):
     if res is not None and (res[0] != o['flag'] or not P1.close_vec(res[1], o['x'])):
         return 'model returns %r, implementation %r' % (res, (o['flag'], o['x']))
     return None
+
+
+def deviation_full(mev, iev):
+    """largest tolerance-normalised deviation between two complete traces with the SAME discrete part (1.0 = exactly at the tolerance of
+    compare_full: points 1e-7 rel + 1e-9 abs, values 1e-6 rel + 1e-12 abs); inf when the discrete parts differ or a number is not finite in one only"""
+    if disc_full(mev) != disc_full(iev):
+        return float('inf')
+    worst = 0.0
+    for u, v in zip(mev, iev):
+        for p, q in zip(u[1:], v[1:]):
+            if isinstance(p, list):
+                pairs, rt, at = list(zip(p, q)), 1e-7, 1e-9
+            elif isinstance(p, float):
+                pairs, rt, at = [(p, q)], 1e-6, 1e-12
+            else:
+                continue
+            for a, b in pairs:
+                if not (math.isfinite(a) and math.isfinite(b)):
+                    if not ((a != a and b != b) or a == b):
+                        return float('inf')
+                    continue
+                worst = max(worst, abs(a - b) / (at + rt * max(abs(a), abs(b))))
+    return worst
 
 
 def convex_box_cases(ctx, count):
@@ -796,11 +819,18 @@ def correspondence(ctx, model_ok):
     for j, (i, what, mres, mev) in enumerate(pending):
         c, o = cases[i], outs[i]
         stable = not o['conv_margin'] < 1e-6
+        spread = 0.0
         for zs in pres[j * NPERT:(j + 1) * NPERT] if stable else []:
             pr, pe = parse_full(zs, c['n'])
+            spread = max(spread, deviation_full(pe, mev))
             if compare_full(pr, pe, dict(full=mev, err=None if mres is not None else 'none', flag=mres[0] if mres else None, x=mres[1] if mres else None)) is not None:
                 stable = False
                 break
+        # (c) amplification rule: the model's own numbers move by `spread` tolerances under perturbations of the size of the oracle's tolerance
+        #     and of one rounding; a model/implementation difference of the same order (<= 50 x that spread, same discrete trace) is the
+        #     amplified rounding of a long SPG run, not a modelling difference.  A run whose numbers do not move at all gets no allowance.
+        if stable and spread > 0.02 and deviation_full(mev, o['full']) <= 50 * spread:
+            stable = False
         for k in range(8 if stable else 0):
             o2 = run_impl(c, mods, onp.random.RandomState(ctx.seed % 100000 + 17 * k))
             if disc_full(o2['full']) != disc_full(o['full']) or (o2['x'] is not None and o['x'] is not None and not P1.close_vec(o2['x'], o['x'], 1e-7, 1e-9)):
@@ -840,6 +870,12 @@ def search(ctx, reasons):
 
 def finding_fails(ctx, f):
     mods = _mods()
+    if f.get('id') == 'F15':
+        jnp, TR = mods
+        w = f['witness']
+        q = TR.project_onto_tr(jnp.array(w['x']), jnp.array(w['xk']), jnp.array([[lo if lo is not None else -INF, hi if hi is not None else INF] for lo, hi in w['bounds']]), w['tr'])
+        dq = math.sqrt(sum((float(a) - b) ** 2 for a, b in zip(q, w['xk'])))
+        return dq > w['tr'] * (1 + 1e-9) + 1e-11
     if f.get('id') == 'F12':
         c = dict(f['witness']['case'])
         c['bounds'] = [(lo if lo is not None else -INF, hi if hi is not None else INF) for lo, hi in c['bounds']]
@@ -870,7 +906,19 @@ def replay(ctx, path):
     case = rep.get('failing_input')
     print('replay of', path)
     print(json.dumps(rep.get('reasons'), indent=1)[:2500])
-    if not case or case.get('kind') == 'projection' or 'A' not in case:
+    if case and case.get('kind') == 'projection':
+        jnp, TR = _mods()
+        bj = jnp.array([[lo, hi] for lo, hi in case['bounds']])
+        q = [float(t) for t in TR.project_onto_tr(jnp.array(case['x']), jnp.array(case['xk']), bj, case['tr'])]
+        dq = math.sqrt(sum((a - b) ** 2 for a, b in zip(q, case['xk'])))
+        bad = []
+        if excess(q, [tuple(b) for b in case['bounds']]) > 0:
+            bad.append('project_onto_tr returns a point outside the box: %r' % q)
+        if dq > case['tr'] * (1 + 1e-9) + 1e-11:
+            bad.append('project_onto_tr returns a point outside the trust region: %.17g > %.17g' % (dq, case['tr']))
+        print('implementation now:', bad or 'conclusion holds (in the box, |q - xk| = %.17g <= %.17g)' % (dq, case['tr']))
+        return 1 if bad else 0
+    if not case or 'A' not in case:
         print('no replayable solver input recorded; broken obligations:', rep.get('broken'))
         return 1
     mods = _mods()
